@@ -34,10 +34,12 @@ RECYCLE_KINDS = ("Construct", "Drop", "Collect", "Free", "Alloc")
 TIERS = {
     # sim = (depth, traces per TLC worker): TLC prints every successor of the last state of a random
     # trace, about 70 histories per trace
-    "quick": dict(deep=5, emit=4, emit_all=2, intern=3, sim=(12, 20), sim_intern=(8, 10),
+    "quick": dict(deep=5, emit=4, emit_all=2, intern=3, opterm=4, sim=(12, 20), sim_intern=(8, 10),
+                  sim_opterm=(8, 10), native_opterm=(80, 10),
                   native=(240, 12), native_intern=(80, 10), limbo_log=300, vacuity=False, timeout=900,
                   focus=[(("TA",), 9, RECYCLE_KINDS, 2)]),
-    "thorough": dict(deep=6, emit=5, emit_all=3, intern=4, sim=(20, 150), sim_intern=(12, 40),
+    "thorough": dict(deep=6, emit=5, emit_all=3, intern=4, opterm=5, sim=(20, 150), sim_intern=(12, 40),
+                     sim_opterm=(12, 40), native_opterm=(800, 14),
                      native=(3000, 16), native_intern=(800, 14), limbo_log=3000, vacuity=True, timeout=5400,
                      focus=[(("TA", "RED"), 6, (), 1), (("TA", "RED"), 7, RECYCLE_KINDS, 2),
                             (("TA",), 10, RECYCLE_KINDS, 2)]),
@@ -75,7 +77,7 @@ class Ctx:
         self.counts = Counter()
         self.skips = Counter()
         self.samples = []
-        self.logs = {"terms": [], "interned": []}
+        self.logs = {"terms": [], "interned": [], "opterms": []}
         self.funsor = set()
 
     def tlc_done(self, name, run, **extra):
@@ -217,7 +219,7 @@ def judge_chunk(lens, events, timeout):
         with os.fdopen(fd, "w") as f:
             for e in events:
                 f.write(json.dumps(e) + "\n")
-        cfg = "Trace_ConsCache" if lens == "terms" else "Trace_ConsCache_interned"
+        cfg = "Trace_ConsCache" if lens == "terms" else "Trace_ConsCache_" + lens
         run = tlc.TLCRun("Trace_ConsCache", cfg=cfg, workers=1, env={"TRACE_FILE": path}, timeout=timeout)
         ok, bad = set(), {}
         for rec in run:
@@ -345,7 +347,8 @@ def run(tier):
     T = P["timeout"]
     ncpu = os.cpu_count() or 4
     pool_t = mp.Pool(max(4, ncpu - 4))
-    pool_i = mp.Pool(max(2, ncpu // 4))
+    pool_i = mp.Pool(max(2, ncpu // 4 - 1))
+    pool_o = mp.Pool(max(2, ncpu // 4 - 1))
     seed = check.seed()
     try:
         jobs = []
@@ -356,6 +359,9 @@ def run(tier):
             jobs.append(ex.submit(model_run, ctx, "deep_interned",
                                   make_cfg(lens="interned", depth=P["intern"] + 1, canon=True, view="ViewNoHist",
                                            maxalloc=0, interp="all"), 4, T))
+            jobs.append(ex.submit(model_run, ctx, "deep_opterms",
+                                  make_cfg(lens="opterms", depth=P["opterm"] + 1, canon=True, view="ViewNoHist",
+                                           maxalloc=0), 4, T))
             if P["vacuity"]:
                 jobs.append(ex.submit(model_run, ctx, "nokeepalive",
                                       make_cfg(keepalive=False, depth=5, canon=True, view="ViewNoHist",
@@ -368,6 +374,16 @@ def run(tier):
             jobs.append(ex.submit(replay_run, ctx, "interned", "interned",
                                   make_cfg(lens="interned", depth=P["intern"], emit=P["intern"], maxalloc=0,
                                            interp="all"), pool_i, 4, T, None, (), P["limbo_log"] // 4))
+            # terms built through parametrised ops over fresh domains: op / domain / type caches observed
+            jobs.append(ex.submit(replay_run, ctx, "opterms", "opterms",
+                                  make_cfg(lens="opterms", depth=P["opterm"], emit=P["opterm"], maxalloc=0),
+                                  pool_o, 4, T, None, (), P["limbo_log"] // 4))
+            d, n = P["sim_opterm"]
+            jobs.append(ex.submit(replay_run, ctx, "opterms_sim", "opterms",
+                                  make_cfg(lens="opterms", depth=d, emit=d, interp="all", collect_always=True,
+                                           maxalloc=0), pool_o, 2, T, "num=%d" % n,
+                                  ("-depth", str(d + 1), "-seed", str(seed + 3))))
+            jobs.append(ex.submit(native_logs, ctx, "opterms", pool_o, P["native_opterm"][0], P["native_opterm"][1], 2))
             # S->C exhaustive and deeper over few recipes: reaches "build, drop, free the array, collect,
             # re-allocate on the recycled address, build again"
             for names, d, kinds, nalloc in P["focus"]:
@@ -395,9 +411,10 @@ def run(tier):
                 except Exception as e:
                     ctx.machinery("job", "%r" % (e,))
         # C->S
-        with ThreadPoolExecutor(3) as ex:
-            jobs = [ex.submit(trace_validation, ctx, "terms", ctx.logs["terms"], 10, T),
+        with ThreadPoolExecutor(4) as ex:
+            jobs = [ex.submit(trace_validation, ctx, "terms", ctx.logs["terms"], 9, T),
                     ex.submit(trace_validation, ctx, "interned", ctx.logs["interned"], 3, T),
+                    ex.submit(trace_validation, ctx, "opterms", ctx.logs["opterms"], 3, T),
                     ex.submit(self_test, ctx, "terms", ctx.logs["terms"])]
             for j in jobs:
                 try:
@@ -407,6 +424,7 @@ def run(tier):
     finally:
         pool_t.terminate()
         pool_i.terminate()
+        pool_o.terminate()
 
     if len(ctx.funsor) != 1:
         out.machinery.append({"clause": "import", "detail": "workers imported funsor from %s" % sorted(ctx.funsor)})
